@@ -39,16 +39,6 @@ vars == <<l, st, hist, rws, dev, nskip, nimg, wpc, sync, saves>>
 
 \* hist[p + 1] = [S, cmd, db, logged] after p commands; rws = positions (acked counts) and times of rewrites
 
-(***************************************************************************)
-(* What the JSON checkpoint formats (preamble, snapshot) do to a value.    *)
-(***************************************************************************)
-RECURSIVE JVal(_)
-JVal(v) == CASE v.k = "int"  -> VFlt(4 * v.n)
-             [] v.k = "hash" -> VHash([f \in DOMAIN v.h |-> JVal(v.h[f])])
-             [] v.k = "list" -> [k |-> "other", go |-> "[]interface {}"]
-             [] v.k \in {"set", "zset"} -> VHash(<<>>)
-             [] OTHER        -> v
-
 Checkpoint(S, t, lossy) ==      \* expired keys are not persisted
     LET N == Norm(S, t) IN [x \in DOMAIN N |-> Ent(IF lossy THEN JVal(N[x].v) ELSE N[x].v, N[x].d)]
 
@@ -115,13 +105,7 @@ Matches(e, D) ==
 
 CmdDevs(e) == RelevantDevs(e.cmd) \cap Deviations
 
-\* the AOF writer's discipline: a command is logged iff it is write-classified and succeeded
-WriteOps == {"SET", "MSET", "DEL", "PERSIST", "EXPIRE", "PEXPIRE", "EXPIREAT", "PEXPIREAT", "INCR", "DECR", "INCRBY",
-             "DECRBY", "INCRBYFLOAT", "RENAME", "FLUSHDB", "FLUSHALL", "GETDEL", "GETEX", "APPEND", "SETRANGE",
-             "HSET", "HSETNX", "HDEL", "HINCRBY", "HINCRBYFLOAT", "LPUSH", "LPUSHX", "RPUSH", "RPUSHX", "LPOP", "RPOP",
-             "LSET", "LTRIM", "LREM", "LMOVE", "SADD", "SREM", "SMOVE", "SPOP", "SDIFFSTORE", "SINTERSTORE",
-             "SUNIONSTORE", "ZADD", "ZINCRBY", "ZREM", "ZPOPMIN", "ZPOPMAX", "ZMPOP", "ZREMRANGEBYSCORE",
-             "ZREMRANGEBYRANK", "ZREMRANGEBYLEX", "ZDIFFSTORE", "ZINTERSTORE", "ZUNIONSTORE", "ZRANGESTORE"}
+\* the AOF writer's discipline: a command is logged iff it is write-classified (WriteOps, Proj.tla) and succeeded
 LoggedOK(e) == e.logged <=> (e.cmd[1].s \in WriteOps /\ e.r.t # "err")
 
 Init == l = 1 /\ st = EmptyStore /\ hist = <<>> /\ rws = <<>> /\ nskip = 0 /\ nimg = 0 /\ wpc = <<"idle", "idle", 0>> /\ sync = "always" /\ saves = <<>>
